@@ -224,9 +224,17 @@ def _shard_main(argv: list[str]) -> int:
         res = Result()
         res.inconclusive.append(f"wrong execnet copy imported: {e}")
         res = res.dump()
-    except BaseException:
+    except BaseException as e:
         res = Result()
-        res.inconclusive.append("shard crashed: " + traceback.format_exc()[-3000:])
+        tb = traceback.extract_tb(e.__traceback__)
+        if tb and os.path.abspath(tb[-1].filename).startswith(os.path.abspath(REPO_SRC) + os.sep):
+            # the code under test raised where the workload has no reason to expect it: that ends the shard, and it is
+            # a finding, not a shortcoming of the run (the workloads do catch what the API documents)
+            res.violation(f"shard-aborted-by-exception-from-execnet:{type(e).__name__}",
+                          f"{type(e).__name__}: {str(e)[:300]} at {os.path.basename(tb[-1].filename)}:{tb[-1].lineno} in {tb[-1].name}; "
+                          f"called from {os.path.basename(tb[-2].filename) if len(tb) > 1 else '?'}:{tb[-2].lineno if len(tb) > 1 else '?'}")
+        else:
+            res.inconclusive.append("shard crashed: " + traceback.format_exc()[-3000:])
         res = res.dump()
     tmp = outfile + ".tmp"
     with open(tmp, "w") as f:
